@@ -131,22 +131,27 @@ def step (st : St) (pre post : List String) : St × Verdict :=
           else if [lver, lhash] ≠ [ver.repr, hash.render] && [lver, lhash] ≠ [toString ver, if hash.isEmpty then "~" else hash.render] then .propfail "lastcommitid" s!"returned={ver} {hash.render} last={lver} {lhash}"
           else if dictBad.isSome then .propfail "hash-not-function-of-history" (dictBad.getD "")
           else if tsz ≠ "-" && (tsz.splitOn ",").any (fun e => (e.splitOn ":").getLast? ≠ some "0") then .propfail "transient-not-empty-after-commit" s!"entries left: {tsz}"
-          else if implInfos ≠ ci.infos then .diff s!"store infos model≠impl: impl={infos}"
-          else if ci.hash Sha256.sum ≠ hash then .diff s!"commit hash model={Bytes.render (ci.hash Sha256.sum)} impl={hash.render}"
           else
-            -- twin comparison with run 0 of the same case
-            match (if r.id = 0 then none else findRun st 0) with
-            | none => .ok
-            | some r0 =>
-              match (r0.commits.reverse)[idx]? with
+            -- twin comparison with run 0 of the same case (the property's own statement) comes first
+            let twin : Verdict :=
+              match (if r.id = 0 then none else findRun st 0) with
               | none => .ok
-              | some c0 =>
-                let same := c0 = ⟨ver, hash⟩
-                match r.perturb with
-                | none => if same then .ok else .propfail "twin-commitid-differs" s!"run {r.id} height {ver}: {hash.render} vs run0 {c0.hash.render}"
-                | some pb =>
-                  if idx < pb then (if same then .ok else .propfail "twin-commitid-differs" s!"run {r.id} height {ver} (before perturbation)")
-                  else if same then .propfail "hash-insensitive-to-persistent-write" s!"run {r.id} height {ver}" else .ok
+              | some r0 =>
+                match (r0.commits.reverse)[idx]? with
+                | none => .ok
+                | some c0 =>
+                  let same := c0 = ⟨ver, hash⟩
+                  match r.perturb with
+                  | none => if same then .ok else .propfail "twin-commitid-differs" s!"run {r.id} height {ver}: {hash.render} vs run0 {c0.hash.render}"
+                  | some pb =>
+                    if idx < pb then (if same then .ok else .propfail "twin-commitid-differs" s!"run {r.id} height {ver} (before perturbation)")
+                    else if same then .propfail "hash-insensitive-to-persistent-write" s!"run {r.id} height {ver}" else .ok
+            match twin with
+            | .ok =>
+              if implInfos ≠ ci.infos then .diff s!"store infos model≠impl: impl={infos}"
+              else if ci.hash Sha256.sum ≠ hash then .diff s!"commit hash model={Bytes.render (ci.hash Sha256.sum)} impl={hash.render}"
+              else .ok
+            | v => v
         (st', v)
       | _, _, _ => (st, if infos = "MISSING" then .propfail "commitinfo-missing" s!"{post}" else .bad "commit fields")
     | _, _ => (st, .bad "commit")
